@@ -29,6 +29,7 @@ fn routes(bits: &[bool], ctx: &mut Ctx, code: u64) -> Vec<(&'static str, Result<
     out.push(("raw.set_bit", guard(|| mk::bv_set_bit(bits))));
     out.push(("raw.push", guard(|| mk::bv_push(bits, &mut rng))));
     out.push(("from_iter", guard(|| mk::bv_iter(bits))));
+    out.push(("raw.push_pop", guard(|| mk::bv_push_pop(bits, &mut rng))));
     out.push(("copy.sparse", mk::sparse_set(n, &pos).and_then(|sv| guard(|| BitVector::copy_bit_vec(&sv)))));
     let runs = SetModel::new(n, pos.clone()).runs();
     out.push(("from.rl", mk::rl_runs(n, &runs).and_then(|rv| guard(|| BitVector::from(rv)))));
@@ -75,7 +76,7 @@ fn small(ctx: &mut Ctx) {
                 check_one(ctx, route, bv, &model, &args, &opts);
             }
             ctx.case(hash64(&[1, n as u64, code]), n <= 1 || (ones > 0 && ones < n));
-            ctx.sample(|| format!("small: bits={} x routes [raw.set_bit, raw.push, from_iter, copy.sparse, from.rl] x all arguments 0..len+3", crate::util::fmt_bits(&bits, 64)));
+            ctx.sample(|| format!("small: bits={} x routes [raw.set_bit, raw.push, raw.push_pop, from_iter, copy.sparse, from.rl, copy.multiset] x all arguments 0..len+3", crate::util::fmt_bits(&bits, 64)));
         }
     }
     ctx.count("small.max_len", max_len as u64);
@@ -136,13 +137,14 @@ fn boundary(ctx: &mut Ctx) {
                     let bits = gen::bits(&mut rng, n, d, s);
                     let model = SetModel::from_bits(&bits);
                     let args = boundary_args(n, &model, &mut rng, budget);
-                    let route = index % 3;
+                    let route = index % 4;
                     let bv = match route {
                         0 => guard(|| mk::bv_set_bit(&bits)),
                         1 => guard(|| mk::bv_push(&bits, &mut rng)),
+                        2 => guard(|| mk::bv_push_pop(&bits, &mut rng)),
                         _ => guard(|| mk::bv_iter(&bits)),
                     };
-                    check_one(ctx, ["raw.set_bit", "raw.push", "from_iter"][route as usize], bv, &model, &args, &opts);
+                    check_one(ctx, ["raw.set_bit", "raw.push", "raw.push_pop", "from_iter"][route as usize], bv, &model, &args, &opts);
                     let ones = model.count_ones();
                     ctx.case(hash64(&[2, n as u64, di as u64, si as u64, rep as u64, crate::util::hash64(&model.ones.iter().map(|x| *x as u64).collect::<Vec<u64>>())]), true);
                     ctx.sample(|| format!("boundary: len={} density={:?} shape={:?} ones={} route={} idx_args={} rank_args={}", n, d, s, ones, route, args.idx.len(), args.ranks.len()));
